@@ -4,11 +4,22 @@ from . import deck as D
 from . import gen_geom as G
 
 
-def _plane_surf(d, n, off, rng=None, flip_p=0.25):
+def _plane_surf(d, n, off, rng=None, flip_p=0.25, carry=None):
     """add a plane card n·x = off choosing the most specific mnemonic; returns the surface id times the sign to
     give it so that the reference means what `sid` would mean for the normal `n` (the card is sometimes written
     with the opposite normal, -n·x = -off, which exchanges the two sides)"""
     sid = max([s.id for s in d.surfs], default=0) + 1
+    if carry is not None:
+        # the plane written as `sid n px c` with a TR card of its own: rotation taking the x axis to the normal (about
+        # the direction `carry[0]`, a coordinate axis normal to n) and a displacement along that direction
+        axis, shift = carry
+        mvec = G.cross(axis, n)
+        o = [shift * a for a in axis]
+        mo = D.Motion(o, list(n) + mvec + list(axis))
+        num = max(d.trs, default=0) + 1
+        d.trs[num] = (mo, {'star': False, 'cls': 'generic'})
+        d.surfs.append(D.Surf(sid, 'px', [off - sum(a * b for a, b in zip(n, o))], tr=mo, trnum=num))
+        return sid
     if rng is not None and rng.random() < flip_p:
         d.surfs.append(D.Surf(sid, 'p', [-x + 0.0 for x in n] + [-off + 0.0]))
         return -sid
@@ -72,6 +83,20 @@ def add_lattice_universe(d, rng, u, next_id, new_universe, kind=None, lat_tr_p=0
                 return out
             normals = [turn(n) for n in normals]
         refs = []
+        rshared = getattr(d, '_rect_shared', None) if kind.startswith('rect') and rng.random() < 0.4 else None
+        if rshared is not None and rshared[0] == dim:
+            # a later lattice of the deck bounded by the very same planes, listed in another order (pairs exchanged,
+            # a pair turned round): the indices then grow along other directions
+            refs = [list(pair) for pair in rshared[1]]
+            centre = list(rshared[2])
+            while True:
+                rng.shuffle(refs)
+                for pair in refs:
+                    if rng.random() < 0.5:
+                        pair.reverse()
+                if refs != [list(pair) for pair in rshared[1]]:
+                    break
+            normals = []
         for n in normals:
             c0 = sum(a * b for a, b in zip(n, centre))
             w = rng.choice([1.0, 1.5, 2.0])
@@ -82,8 +107,10 @@ def add_lattice_universe(d, rng, u, next_id, new_universe, kind=None, lat_tr_p=0
             if rng.random() < 0.5:
                 pair.reverse()
             refs.append(pair)
-        if rng.random() < 0.4:
+        if normals and rng.random() < 0.4:
             rng.shuffle(refs)
+        if normals and kind.startswith('rect'):
+            d._rect_shared = (dim, [list(pair) for pair in refs], list(centre))
         leaves = [r for pair in refs for r in pair]
     else:
         # hexagonal prism: three pairs of planes at 60°, optional top/bottom
@@ -109,10 +136,15 @@ def add_lattice_universe(d, rng, u, next_id, new_universe, kind=None, lat_tr_p=0
             return out
         dirs = [P([1.0, 0.0, 0.0]), P([0.5, s3 / 2, 0.0]), P([-0.5, s3 / 2, 0.0])]
         pairs = []
-        for n in ([] if shared else dirs):
+        # some of the side planes written as transformed PX planes, each pair with a TR card of its own that also shifts
+        # along the axis of the prism (a no-op for these planes): not all the planes carry the same transformation
+        carried = set(rng.sample([0, 1, 2], rng.choice([1, 2]))) if rng.random() < 0.5 else set()
+        axis_v = P([0.0, 0.0, 1.0])
+        for i_dir, n in enumerate([] if shared else dirs):
             c0 = sum(a * b for a, b in zip(n, centre))
-            hi = _plane_surf(d, n, c0 + rr, orng)
-            lo = _plane_surf(d, n, c0 - rr, orng)
+            carry = (axis_v, rng.choice([1.5, -2.0, 3.0])) if i_dir in carried else None
+            hi = _plane_surf(d, n, c0 + rr, orng, carry=carry)
+            lo = _plane_surf(d, n, c0 - rr, orng, carry=carry)
             pairs.append([('s', -hi), ('s', lo)])
         # MCNP order: side 1, its opposite, side 2 (adjacent choice), its opposite, the last two in any order
         if shared:
